@@ -451,6 +451,9 @@ func record(out string, n int) {
 			salt := make([]byte, []int{0, 0, 1, 4, 8, 16, 40}[r.Intn(7)])
 			r.Read(salt)
 			iter := []int{0, 1, 2, 3, 5, 10, 12, 50, 100, 500}[r.Intn(10)]
+			if r.Intn(25) == 0 {
+				iter = []int{255, 256, 65534, 65535}[r.Intn(4)]
+			}
 			e := evHash{Ev: "hashname", Name: hx.FromString(name), Salt: hx.FromBytes(salt), Iter: iter,
 				Hash: hx.FromString(dns.HashName(name, dns.SHA1, uint16(iter), hex.EncodeToString(salt)))}
 			seen["h"+name+fmt.Sprint(salt, iter)] = true
